@@ -1,4 +1,5 @@
 '''C03 -- block manager transparency and structural coherence of Frame.'''
+import datetime as _dt
 import io
 import itertools
 import math
@@ -117,6 +118,8 @@ def _scalar(v):
         return ('y', bytes(v))
     if isinstance(v, (np.datetime64, np.timedelta64)):
         return ('t', str(v.dtype), 'NaT' if np.isnat(v) else int(v.astype('int64')))
+    if isinstance(v, (_dt.date, _dt.time, _dt.timedelta)):
+        return ('pydt', type(v).__name__, v.isoformat() if hasattr(v, 'isoformat') else str(v))
     if isinstance(v, np.dtype):
         return ('dtype', str(v))
     if isinstance(v, tuple):
@@ -165,7 +168,7 @@ def _obs(r, depth=0):
         return (type(r).__name__ if not hasattr(r, '_fields') else 'namedtuple',) + tuple(_obs(x, depth + 1) for x in r)
     if isinstance(r, dict):
         return ('dict',) + tuple((_obs(k, depth + 1), _obs(v, depth + 1)) for k, v in r.items())
-    if isinstance(r, (str, bytes)) or r is None or isinstance(r, (bool, int, float, complex, np.generic, np.dtype, type)):
+    if isinstance(r, (str, bytes)) or r is None or isinstance(r, (bool, int, float, complex, np.generic, np.dtype, type, _dt.date, _dt.time, _dt.timedelta)):
         return _scalar(r)
     if hasattr(r, '__next__') or hasattr(r, '__iter__'):
         return ('iter',) + tuple(_obs(x, depth + 1) for x in r)
@@ -528,6 +531,8 @@ def finding_for(name, kinds, n, layout):
         return 'C03-str-itemsize'
     if name.startswith('dropna1') and m == 1:
         return 'C03-dropna-1d-block'
+    if name.startswith(('fillna_forward1', 'fillna_backward1')) and 'O' in kinds and 'M' in kinds:
+        return 'C03-fill-axis1-datetime-class'
     return None
 
 
@@ -573,7 +578,7 @@ def short(o, limit=160):
 QUICK_KINDS = ['', 'i', 'f', 'U', 'O', 'b', 'ii', 'if', 'fO', 'UU', 'iii', 'iif', 'UUf', 'bbO', 'iiff', 'iUUi']
 THOROUGH_FRAMES = (
     [(k, (0, 1, 2, 3, 4)) for k in ['', 'i', 'f', 'U', 'O', 'b', 'M', 'h']]
-    + [(k, (0, 1, 3)) for k in ['ii', 'if', 'fO', 'UU', 'bb', 'OO', 'gg', 'hi']]
+    + [(k, (0, 1, 3)) for k in ['ii', 'if', 'fO', 'UU', 'bb', 'OO', 'gg', 'hi']] + [('OM', (2,))]
     + [(k, (1, 3)) for k in ['iii', 'iif', 'fii', 'UUf', 'bbO', 'hhi', 'MMi', 'ggi', 'bib']]
     + [('iiii', (0, 1, 3))] + [(k, (1, 3)) for k in ['iiff', 'iUUi', 'OOii']] + [(k, (3,)) for k in ['ifif', 'ffff', 'fiib', 'hhgg']]
     + [('iiiii', (3,)), ('iifff', (3,)), ('ifbUO', (1,))])
@@ -583,7 +588,7 @@ ALL_KINDS = 'ihgfbUOM'
 
 QUICK_FRAMES = [('', (0, 1, 3)), ('i', (0, 1, 3)), ('f', (0, 1, 3)), ('U', (0, 2)), ('O', (1, 3)), ('ii', (0, 1, 3)), ('if', (0, 1, 3)),
                 ('UU', (1, 3)), ('fO', (0, 2)), ('iii', (1, 3)), ('iif', (0, 2)), ('bbO', (1, 3)), ('iiff', (1, 3)), ('iUUi', (0, 2)),
-                ('hi', (2,)), ('iiii', (3,))]
+                ('hi', (2,)), ('OM', (2,)), ('iiii', (3,))]
 
 
 def frame_space(ctx):
